@@ -10,6 +10,10 @@
      M (<tk> <code> <line> <col> <lo> <hi>)*       the raw token stream for the layout MODEL (Layout.v)
        reply: `ok|err|panic|hang|fuel (<code> <lo> <hi>)*`   the model's output stream
 
+     C (<tk> <code> <line> <col> <lo> <hi>)*       the same raw token stream as for M
+       reply: `clean|unclean balanced|unbalanced`     LayoutBalanced.clean_run of the stream, and whether
+                                                      the model's output reads as a balanced bracket word
+                                                      (LayoutBalanced.bal [] out = Some [])
      E <canonical tree>TAB<canonical tree>          the two sides of a round trip case
        reply: `eq` | `ne`                             verdict of the extracted [ast_eqb] (AstEq.v)
 
@@ -204,13 +208,29 @@ let do_model rest =
   | RHang out -> show "hang" out
   | RFuel out -> show "fuel" out
 
+let do_clean rest =
+  let a = Array.of_list (List.filter (fun x -> x <> "") (split ' ' rest)) in
+  let n = Array.length a / 6 in
+  let rec go i acc =
+    if i < 0 then acc
+    else
+      let f j = n_of_decimal a.(6 * i + j) in
+      go (i - 1) ({ k = tk_of_int (int_of_string a.(6 * i)); code = f 1; line = f 2; col = f 3; mlo = f 4; mhi = f 5 } :: acc)
+  in
+  let raw = go (n - 1) [] in
+  let c = if clean_run raw then "clean" else "unclean" in
+  let b = match layout raw with
+    | ROk out -> (match bal [] out with Some [] -> "balanced" | _ -> "unbalanced")
+    | _ -> "not-ok" in
+  c ^ " " ^ b
+
 let () =
   try
     while true do
       let line = input_line stdin in
       if String.length line >= 2 then begin
         let rest = String.sub line 2 (String.length line - 2) in
-        let r = try (match line.[0] with 'S' -> do_span rest | 'L' -> do_layout rest | 'M' -> do_model rest | 'E' -> do_eq rest | _ -> "bad-input")
+        let r = try (match line.[0] with 'S' -> do_span rest | 'L' -> do_layout rest | 'M' -> do_model rest | 'C' -> do_clean rest | 'E' -> do_eq rest | _ -> "bad-input")
                 with e -> "driver-error " ^ Printexc.to_string e in
         print_endline r
       end
